@@ -49,7 +49,7 @@ type verifPanSim struct {
 	displayName string
 	ha          string // "", "active", "passive", "active-primary", "active-secondary"
 	faultPos    int
-	faultKind   int // 0 none, 1 status 500, 2 malformed XML, 3 status="error", 4 transport error, 5 commit job FAIL
+	faultKind   int // 0 none, 1 status 500, 2 malformed XML, 3 status="error", 4 transport error, 5 commit job FAIL, 6 reply cut off inside the body
 	pend        int // number of PEND answers before the job result
 	jobFail     bool
 	failURI     string // a transport error persists for retries of the same request
@@ -77,6 +77,9 @@ func (s *verifPanSim) respond(method, uri, body string) (int, string, string, st
 	case 4:
 		s.failURI = uri
 		return 0, "", "", "EOF"
+	case 6:
+		// status 200 and headers arrive, the connection drops inside the body
+		return 200, `<response status="succ`, "", "BODY:unexpected EOF"
 	}
 	switch {
 	case strings.Contains(uri, "type=keygen"):
@@ -160,6 +163,13 @@ func verifRunPan(sim *verifPanSim, isCompare bool) *verifPanRun {
 		srv := httptest.NewTLSServer(http.HandlerFunc(func(w http.ResponseWriter, req *http.Request) {
 			// the tool does not escape its query: use the raw request URI
 			status, body, _, terr := sim.respond(req.Method, req.RequestURI, "")
+			if strings.HasPrefix(terr, "BODY:") {
+				// declare more than is sent: the server drops the connection
+				w.Header().Set("Content-Length", "64")
+				w.WriteHeader(status)
+				w.Write([]byte(body))
+				return
+			}
 			if terr != "" {
 				if hj, ok := w.(http.Hijacker); ok {
 					c, _, _ := hj.Hijack()
@@ -190,10 +200,10 @@ func verifLeak(text, secret string) bool {
 // VerifDialoguePAN: one fault at a symbolic request.
 func VerifDialoguePAN() {
 	isCompare := vf.Param("mode", "approve") == "compare"
-	vf.Assumption("PAN-OS XML API simulator: answers per request kind (keygen, HA state, candidate config, config commands, commit, job status); faults: HTTP 500, malformed XML, status=error, transport error (connection closed: *url.Error embeds the request URL), commit job FAIL after 0..1 PEND")
+	vf.Assumption("PAN-OS XML API simulator: answers per request kind (keygen, HA state, candidate config, config commands, commit, job status); faults: HTTP 500, malformed XML, status=error, transport error (connection closed: *url.Error embeds the request URL), commit job FAIL after 0..1 PEND, reply cut off inside the body")
 	sim := &verifPanSim{hostname: "router", displayName: "vsys1 netspoc", faultPos: -1}
 	sim.faultPos = vf.FixInt(vf.Int("faultPos", -1, 11))
-	sim.faultKind = vf.FixInt(vf.Int("faultKind", 1, 5))
+	sim.faultKind = vf.FixInt(vf.Int("faultKind", 1, 6))
 	sim.pend = vf.FixInt(vf.Int("pendAnswers", 0, 1))
 	r := verifRunPan(sim, isCompare)
 	vf.Note("rc=", r.rc, "requests:", len(sim.reqs), "stderr:", r.stderr)
